@@ -120,9 +120,12 @@ def check_recovery(case, ctx):
     grouper = None
     if mode == 'grouper':
         grouper = SourceGrouper(case['min_sep'])
-    elif mode == 'group_id':
+    elif mode in ('group_id', 'both'):
         gid_given = [case['group_ids'][i % len(case['group_ids'])] + 1 for i in range(n)]
         init['group_id'] = gid_given
+        if mode == 'both':
+            # documented: group_id values in init_params override the grouper
+            grouper = SourceGrouper(case['min_sep'])
     mask = None
     if case['mask_points']:
         mask = np.zeros((ny, nx), bool)
@@ -186,7 +189,7 @@ def check_recovery(case, ctx):
     gsz = [int(g) for g in res['group_size']]
     if mode == 'grouper':
         exp_gid, amb = clusters(list(xi), list(yi), case['min_sep'])
-    elif mode == 'group_id':
+    elif mode in ('group_id', 'both'):
         exp_gid, amb = list(gid_given), False
     else:
         exp_gid, amb = list(range(1, n + 1)), False
@@ -351,7 +354,8 @@ def recovery_cases(draw):
             'pedestal': draw(st.sampled_from([0.0, 0.0, 0.0, 3.0])),
             'localbkg': draw(st.booleans()), 'init_flux': draw(st.booleans()),
             'order': draw(st.lists(st.integers(0, 9), min_size=1, max_size=7)),
-            'grouping': draw(st.sampled_from(['grouper', 'grouper', 'group_id', 'none'])),
+            'grouping': draw(st.sampled_from(['grouper', 'grouper', 'group_id', 'none',
+                                              'both'])),
             'min_sep': draw(st.one_of(st.just(fs * 1.5 + 2 * fw), st.floats(2, 25))),
             'group_ids': draw(st.lists(st.integers(0, 2), min_size=1, max_size=7)),
             'mask_points': [list(m) for m in draw(st.lists(
